@@ -145,14 +145,68 @@ def rule_r1(chk, p, t):
                 tst = cfg.nodes[cid].ast
                 if lab is True and isinstance(tst, ast.Compare) and isinstance(tst.comparators[0], ast.Constant):
                     pairs[tst.comparators[0].value] = unparse(s.targets[0].slice)
+        # table form: third_bodies[TABLE[label]] = ... with a module-level dict literal TABLE
+        for s in stores:
+            key = s.targets[0].slice
+            if isinstance(key, ast.Subscript) and isinstance(key.value, ast.Name):
+                for st in tbf.module.tree.body:
+                    tg = st.targets[0] if isinstance(st, ast.Assign) else (st.target if isinstance(st, ast.AnnAssign) else None)
+                    val = getattr(st, "value", None)
+                    if isinstance(tg, ast.Name) and tg.id == key.value.id and isinstance(val, ast.Dict):
+                        guard_ok = any(isinstance(n, ast.Compare) and isinstance(n.ops[0], (ast.NotIn, ast.In)) and unparse(n.comparators[0]) == tg.id for n in ast.walk(tbf.node))
+                        if guard_ok:
+                            for k, v in zip(val.keys, val.values):
+                                if isinstance(k, ast.Constant):
+                                    pairs[k.value] = unparse(v)
         exp = {"sun": "Sun", "moon": "Moon", "jupiter": "Jupiter", "saturn": "Saturn", "venus": "Venus"}
         raises = [n for n in walk_no_nested(tbf.node) if isinstance(n, ast.Raise)]
         if pairs == exp and raises:
             r.ok(tbf.qualname, f"{sorted(pairs)} -> body classes; unknown label raises", tbf.loc())
         else:
             r.violation(tbf.qualname, f"factory:{sorted(pairs.items())}", f"thirdBodyFactory maps {pairs}; expected {exp} and a ValueError otherwise", tbf.loc())
+        # the returned set is built afresh on every call
+        fresh = [n for n in walk_no_nested(tbf.node) if isinstance(n, ast.Assign) and unparse(n.targets[0]) == "third_bodies" and (isinstance(n.value, ast.Dict) and not n.value.keys or (isinstance(n.value, ast.Call) and call_name(n.value) == "dict" and not n.value.args))]
+        if fresh and "third_bodies" not in tbf.all_params:
+            r.ok(tbf.qualname + ":fresh", "the third-body set is a new dict per call", tbf.loc(fresh[0]))
+        else:
+            r.violation(tbf.qualname + ":fresh", "shared-third-body-set", "the third-body set is not created afresh in thirdBodyFactory (a parameter / default / module object is filled in and returned): dynamics objects built in one process share one set, so a body configured for one object perturbs all of them", tbf.loc())
 
     r.guard(tbf.qualname, f3)
+
+    # no force-model function accumulates into a mutable default argument
+    def f4():
+        n_fun = 0
+        for fi in p.all_functions(include_nested=True):
+            if not fi.module.name.startswith(("resonaate.dynamics", "resonaate.physics.bodies")):
+                continue
+            n_fun += 1
+            a = fi.node.args
+            pos = a.posonlyargs + a.args
+            pairs_d = list(zip(pos[len(pos) - len(a.defaults) :], a.defaults)) + [(x, d) for x, d in zip(a.kwonlyargs, a.kw_defaults) if d is not None]
+            for arg, d in pairs_d:
+                mutable = isinstance(d, (ast.Dict, ast.List, ast.Set)) or (isinstance(d, ast.Call) and call_name(d) in ("dict", "list", "set", "defaultdict", "zeros", "array"))
+                if not mutable:
+                    continue
+                nm = arg.arg
+                mutated = False
+                for n in walk_no_nested(fi.node):
+                    if isinstance(n, (ast.Assign, ast.AugAssign)):
+                        for tg in n.targets if isinstance(n, ast.Assign) else [n.target]:
+                            b = tg
+                            while isinstance(b, (ast.Subscript, ast.Attribute)):
+                                b = b.value
+                            if isinstance(b, ast.Name) and b.id == nm and b is not tg:
+                                mutated = True
+                    if isinstance(n, ast.Call) and isinstance(n.func, ast.Attribute) and isinstance(n.func.value, ast.Name) and n.func.value.id == nm and n.func.attr in ("append", "extend", "update", "add", "setdefault", "pop", "insert", "clear"):
+                        mutated = True
+                    if isinstance(n, ast.Return) and isinstance(n.value, ast.Name) and n.value.id == nm:
+                        mutated = True
+                if mutated:
+                    r.violation(f"{fi.qualname}:{nm}", f"mutable-default:{nm}", f"`{nm}={unparse(d)}` is a mutable default that {fi.name} fills in / returns: the object is shared by every call in the process, so the force model of one agent depends on which other agents were built before it", fi.loc())
+        r.ok("force-model:mutable-defaults", f"{n_fun} force-model functions: no mutable default argument is mutated or returned", "")
+
+    r.guard("force-model:mutable-defaults", f4)
+    return
 
 
 def rule_r2(chk, p, t):
